@@ -318,6 +318,11 @@ func ParseFilter(value []byte, table TableName, stack *[]*Filter, options ParseO
 		return err
 	}
 
+	// case-insensitive substring operators compare against the lower cased column value
+	if operator == ContainsNoCase || operator == ContainsNoCaseNot {
+		filter.stringVal = strings.ToLower(filter.stringVal)
+	}
+
 	if options&ParseOptimize != 0 {
 		filter.setLowerCaseColumn()
 		col = filter.column // might have changed
